@@ -1501,7 +1501,7 @@ func TestVerifC16(t *testing.T) {
 	seed := vfSeed()
 	n := vfEnvInt("VERIF_N", 300)
 	only := vfOnly()
-	cs := vfNewCases("Run_C16", 25)
+	cs := vfNewCases("Run_C16", 50)
 	root := vfNewRand(seed)
 	sh := c16NewHost()
 	shared, err := c16NewFRT(sh, "/verif", c16BlockCrawler{}, &c16Sender{}, 20, nil, nil)
